@@ -119,6 +119,17 @@ class World:
                     await asyncio.sleep(0)
                 return await orig_get(login)
             um.get_user = slow_get
+        if c.get("slow_logout"):   # ... and one whose logout notification does
+            um = self.server.user_manager
+            orig_out = um.notify_logout
+            n_out = int(c["slow_logout"])
+
+            async def slow_out(user):
+                import asyncio
+                for _ in range(n_out):
+                    await asyncio.sleep(0)
+                return await orig_out(user)
+            um.notify_logout = slow_out
         self.populate(self.init_tree)
         self.loop.run_task(self.server.start(self.net.host, CTL_PORT))
         return self
